@@ -242,6 +242,81 @@ func (f *flow) run() {
 	f.o.Row(fmt.Sprintf("acme step=reference mut=same-account seed=%d", f.sd), out, "ok")
 }
 
+// corner runs scripted, fully valid orders whose finalization exercises the sign options of the provisioner with
+// unusual but acceptable shapes: IP-only orders with an empty subject (forceCN has no DNS name to take), mixed
+// orders, duplicated and wildcard identifiers, a common name only.
+func corner(e *acmeenv.Env, a *acmeenv.Acct, o *c.Out, tag string) {
+	type sc struct {
+		ids  []string
+		cn   string
+		sans []string
+	}
+	scripts := []sc{
+		{ids: []string{"10.0.0.1"}, sans: []string{"10.0.0.1"}},
+		{ids: []string{"::1", "10.0.0.1"}, sans: []string{"::1", "10.0.0.1"}},
+		{ids: []string{"10.0.0.1"}, cn: "10.0.0.1"},
+		{ids: []string{"a.test", "10.0.0.1"}, sans: []string{"a.test", "10.0.0.1"}},
+		{ids: []string{"a.test"}, cn: "a.test"},
+		{ids: []string{"a.test"}, sans: []string{"a.test"}},
+		{ids: []string{"*.a.test", "a.test"}, sans: []string{"*.a.test", "a.test"}},
+		{ids: []string{"A.test", "b.test"}, cn: "b.test", sans: []string{"a.test"}},
+	}
+	f := &flow{e: e, a: a, o: o, r: c.NewRng(1), sd: 0}
+	p := func(parts ...string) string { return acmeenv.Path(a.Prov, parts...) }
+	for si, s := range scripts {
+		ids := []map[string]any{}
+		for _, v := range s.ids {
+			typ := "dns"
+			if net.ParseIP(v) != nil {
+				typ = "ip"
+			}
+			ids = append(ids, map[string]any{"type": typ, "value": v})
+		}
+		pl, _ := json.Marshal(map[string]any{"identifiers": ids})
+		rec := e.Post(a, p("new-order"), pl)
+		f.row("corner-new-order", fmt.Sprintf("%s-%d", tag, si), rec.Code)
+		if rec.Code != 201 {
+			continue
+		}
+		var ord struct {
+			Authorizations []string `json:"authorizations"`
+		}
+		json.Unmarshal(rec.Body.Bytes(), &ord)
+		orderID := acmeenv.LastPathElem(rec.Header().Get("Location"))
+		for _, azURL := range ord.Authorizations {
+			azID := acmeenv.LastPathElem(azURL)
+			rec = e.Post(a, p("authz", azID), nil)
+			var az struct {
+				Challenges []struct{ Type, URL, Token string } `json:"challenges"`
+			}
+			json.Unmarshal(rec.Body.Bytes(), &az)
+			for _, ch := range az.Challenges {
+				if ch.Type == "http-01" {
+					e.Client.Set("/.well-known/acme-challenge/"+ch.Token, ch.Token+"."+a.Key.Thumb())
+					rec = e.Post(a, p("challenge", azID, acmeenv.LastPathElem(ch.URL)), []byte("{}"))
+					f.row("corner-challenge", fmt.Sprintf("%s-%d", tag, si), rec.Code)
+				}
+			}
+		}
+		tpl := &x509.CertificateRequest{Subject: pkix.Name{CommonName: s.cn}}
+		for _, n := range s.sans {
+			if ip := net.ParseIP(n); ip != nil {
+				tpl.IPAddresses = append(tpl.IPAddresses, ip)
+			} else {
+				tpl.DNSNames = append(tpl.DNSNames, n)
+			}
+		}
+		k, _ := ecdsa.GenerateKey(elliptic.P256(), rand.Reader)
+		der, err := x509.CreateCertificateRequest(rand.Reader, tpl, k)
+		if err != nil {
+			continue
+		}
+		pl, _ = json.Marshal(map[string]any{"csr": b64(der)})
+		rec = e.Post(a, p("order", orderID, "finalize"), pl)
+		f.row("corner-finalize", fmt.Sprintf("%s-%d-status-%d", tag, si, rec.Code/100), rec.Code)
+	}
+}
+
 func firstPEM(b []byte) string {
 	s := string(b)
 	i := strings.Index(s, "-----BEGIN CERTIFICATE-----")
@@ -271,17 +346,21 @@ func main() {
 	var e *acmeenv.Env
 	var a *acmeenv.Acct
 	for i := 0; i < *n; i++ {
-		if i%150 == 0 { // fresh environment now and then: the store's per-account lists grow
+		if i%75 == 0 { // fresh environment now and then: the store's per-account lists grow
 			if e != nil {
 				e.Close()
 			}
-			if e, err = acmeenv.New([]acmeenv.ProvSpec{{Name: "p0"}}, nil); err != nil {
+			// every other environment forces the common name (forceCN): IP-only orders, empty subjects
+			if e, err = acmeenv.New([]acmeenv.ProvSpec{{Name: "p0", ForceCN: (i/75)%2 == 1}}, nil); err != nil {
 				fmt.Fprintln(os.Stderr, "env:", err)
 				os.Exit(3)
 			}
 			if a, err = e.NewAccount("p0", acmeenv.NewKey("es256", 1)); err != nil {
 				fmt.Fprintln(os.Stderr, "account:", err)
 				os.Exit(3)
+			}
+			if i < 150 {
+				corner(e, a, o, map[bool]string{false: "plain", true: "forcecn"}[(i/75)%2 == 1])
 			}
 		}
 		sd := r.U64()
